@@ -296,6 +296,10 @@ def configs(tier):
                     for sv in sig_vals:
                         cfgs.append({'kind': 'wrap', 'name': name, 'base': b, 'space': sp,
                                      'opt': o, 'sigma': sv})
+                    if elem_sigma_ok:
+                        # pointwise step given as a space element, passed through the wrapper
+                        cfgs.append({'kind': 'wrap', 'name': name, 'base': b, 'space': sp,
+                                     'opt': o, 'sigma': 0.5, 'sigma_kind': 'elem'})
     # combine_proximals on a product space
     for b1, b2 in itertools.product(['proximal_l1', 'proximal_l2_squared', 'proximal_l2'],
                                     repeat=2):
@@ -360,6 +364,8 @@ def _site(cfg):
                                       ',large' if cfg.get('big') else '')
     if k == 'wrap':
         o = ','.join('%s=%s' % kv for kv in sorted(cfg['opt'].items()))
+        if cfg.get('sigma_kind') == 'elem':
+            o = (o + ',' if o else '') + 'sigma=elem'
         return '%s(%s)[%s]' % (cfg['name'], cfg['base'], o)
     if k == 'combine':
         return 'combine_proximals(%s,%s)' % (cfg['b1'], cfg['b2'])
@@ -413,7 +419,7 @@ def _build(cfg):
     if k == 'wrap':
         sp = S.build(cfg['space'])
         fac = WRAP[cfg['name']][1](sp, cfg['base'], cfg['opt'])
-        return fac(cfg['sigma']), sp
+        return fac(_sigma(sp, cfg.get('sigma_kind', 'scalar'), cfg['sigma'])), sp
     if k == 'combine':
         sp = S.build('rn2')
         fac = PO.combine_proximals(_base(sp, cfg['b1'], g=0), _base(sp, cfg['b2'], g=1))
